@@ -99,8 +99,9 @@ def main():
     if a.keep_as and res["confirmed"] and not a.clone:
         dest = VERIF / "seeded" / a.keep_as
         dest.mkdir(parents=True, exist_ok=True)
-        shutil.copy(patch, dest / "patch.diff")
-        shutil.copy(seed / "demo.py", dest / "demo.py")
+        if seed.resolve() != dest.resolve():
+            shutil.copy(patch, dest / "patch.diff")
+            shutil.copy(seed / "demo.py", dest / "demo.py")
         meta["verification"] = {
             "ran": ["git apply in scratch worktree", "demo.py with change -> exit %s" % res.get("demo_with_change"),
                     "demo.py clean -> exit %s" % res.get("demo_clean"),
